@@ -51,6 +51,7 @@ structure GitCmd where
   stderr : StderrMode := .dflt
   viaOutput : Bool := false    -- run with `.output()`, which drains stdout and stderr
   usesThread : Bool := false   -- the enclosing function spawns a thread
+  stderrDrained : Bool := false -- the enclosing function hands the child's stderr to a thread that reads it to the end
   guards : List Guard
   deriving DecidableEq, Repr
 
@@ -259,22 +260,26 @@ def auditedBothPiped : List (SrcFile × GitSub × Bool) :=
     (the shape of finding F7). -/
 def auditedReaderBreaks : List (SrcFile × Nat) := [(.detect, 1), (.finalize, 2), (.stream, 1)]
 
-/-- **C17**: no child can block on a stderr pipe nobody reads: stderr is inherited, null, or piped and drained by `.output()`;
-    the audited exceptions are children whose piped stderr is read after they exited and that write at most an error message -/
+/-- **C17**: no child can block on a stderr pipe nobody reads: stderr is inherited, null, piped and drained by `.output()`,
+    or piped and read to the end by a thread of its own while stdout is consumed; the audited exceptions are children whose
+    piped stderr is never read and that write at most one error message before they die -/
 def stderrNeverBlocks (audited : List (SrcFile × GitSub)) (wrappedIn : List SrcFile) (cs : List GitCmd) : Bool :=
   cs.all fun c => match c.stderr with
     | .dflt | .quiet => true
-    | .piped => c.viaOutput || audited.contains (c.file, c.sub)
+    | .piped => c.viaOutput || c.stderrDrained || audited.contains (c.file, c.sub)
     | .wrapped => wrappedIn.contains c.file
     | .dyn => false
 
-/-- piped stderr that is not drained by `.output()`: detect.rs `cat-file --batch[-check]` ×2 (never read; cat-file reports a
-    missing object on stdout and writes to stderr only when it dies), stream.rs `cat-file --batch-all-objects` (read to the end
-    after stdout reached EOF; same remark). sanity.rs hands its commands to `execute_with_timeout`, which pipes stdout and
+/-- piped stderr that is neither drained by `.output()` nor by a thread: detect.rs `cat-file --batch[-check]` ×2 (never read;
+    the ids it is asked for come from `rev-list`, a missing object is reported on stdout, and on a damaged object cat-file
+    writes one message and dies). stream.rs `cat-file --batch-all-objects --batch-check` used to be listed here with the
+    remark "writes to stderr only when it dies" — false: it writes one line per damaged loose object and goes on, and with
+    more than a pipe buffer of them the run hung (finding N18, repaired: the stderr is now read by a thread, which the
+    extractor reports as `stderrDrained`). sanity.rs hands its commands to `execute_with_timeout`, which pipes stdout and
     stderr, polls for the exit and reads both afterwards: a child writing more than a pipe buffer is killed after the
     timeout and the pre-flight fails with "Command timed out" — bounded, and only reachable on repositories the pre-flight
     refuses anyway (observation, see DESIGN.md) -/
-def auditedPipedStderr : List (SrcFile × GitSub) := [(.detect, .catFile), (.stream, .catFile)]
+def auditedPipedStderr : List (SrcFile × GitSub) := [(.detect, .catFile)]
 def auditedWrapped : List SrcFile := [.sanity]
 
 def readOnlyIn (f : SrcFile) (cs : List GitCmd) : Bool :=
